@@ -1,6 +1,221 @@
 /-
-  C27: tracks built by `add_card` — what `get_cards` returns (placeholder, filled below).
+  C27: tracks built by `add_card` (from `MemoriesTrack::new` / after `clear`) — what `get_cards`
+  returns: exactly the cards whose lower-cased "entity:slot" key equals the query's, newest first.
 -/
 import MvProps.C27Lemmas
 namespace Mv.Cards
+
+/-- tracks reachable through the public mutators -/
+inductive Reachable (lower : Bytes → Bytes) : Track → Prop where
+  | empty : Reachable lower Track.empty
+  | add (tr : Track) (c : Card) : Reachable lower tr → Reachable lower (tr.addCard lower c).1
+
+def Card.key (lower : Bytes → Bytes) (c : Card) : Bytes := slotKey lower c.entity c.slot
+
+/-- exact lookup, the first step of `SlotIndex::get` -/
+def indexLookup (ix : Index) (k : Bytes) : Option (List Nat) :=
+  (ix.find? (fun p => decide (p.1 = k))).map (·.2)
+
+/-- ids of the cards stored under key `k`, newest first -/
+def keyIds (lower : Bytes → Bytes) (tr : Track) (k : Bytes) : List Nat :=
+  ((tr.cards.filter (fun c => decide (c.key lower = k))).map (·.id)).reverse
+
+theorem indexLookup_insert (ix : Index) (k k' : Bytes) (id : Nat) :
+    indexLookup (indexInsert ix k id) k' =
+      if k' = k then some (id :: (indexLookup ix k).getD []) else indexLookup ix k' := by
+  induction ix with
+  | nil =>
+    by_cases h : k' = k
+    · subst h; simp [indexInsert, indexLookup]
+    · have h' : ¬ k = k' := fun e => h e.symm
+      simp [indexInsert, indexLookup, h, h']
+  | cons p rest ih =>
+    obtain ⟨pk, pids⟩ := p
+    unfold indexInsert
+    by_cases hpk : pk = k
+    · subst hpk
+      by_cases h : k' = pk
+      · subst h; simp [indexLookup]
+      · have h' : ¬ pk = k' := fun e => h e.symm
+        simp [indexLookup, h, h']
+    · simp only [hpk, if_false]
+      by_cases h : k' = k
+      · subst h
+        have : indexLookup ((pk, pids) :: indexInsert rest k' id) k' = indexLookup (indexInsert rest k' id) k' := by
+          simp [indexLookup, hpk]
+        rw [this, ih]
+        simp [indexLookup, hpk]
+      · simp only [h, if_false] at ih ⊢
+        by_cases h2 : pk = k'
+        · subst h2; simp [indexLookup]
+        · have e1 : indexLookup ((pk, pids) :: indexInsert rest k id) k' = indexLookup (indexInsert rest k id) k' := by
+            simp [indexLookup, h2]
+          have e2 : indexLookup ((pk, pids) :: rest) k' = indexLookup rest k' := by
+            simp [indexLookup, h2]
+          rw [e1, e2, ih]
+
+theorem mem_indexInsert_key (ix : Index) (k : Bytes) (id : Nat) (p : Bytes × List Nat)
+    (hp : p ∈ indexInsert ix k id) : p.1 = k ∨ ∃ q ∈ ix, q.1 = p.1 := by
+  induction ix with
+  | nil => simp [indexInsert] at hp; left; rw [hp]
+  | cons q rest ih =>
+    obtain ⟨qk, qids⟩ := q
+    unfold indexInsert at hp
+    split at hp
+    · rename_i hq
+      rcases List.mem_cons.1 hp with rfl | hm
+      · left; exact hq
+      · right; exact ⟨p, List.mem_cons_of_mem _ hm, rfl⟩
+    · rcases List.mem_cons.1 hp with rfl | hm
+      · right; exact ⟨(qk, qids), List.mem_cons_self, rfl⟩
+      · rcases ih hm with h | ⟨q', hq', he⟩
+        · left; exact h
+        · right; exact ⟨q', List.mem_cons_of_mem _ hq', he⟩
+
+/-- what `add_card` does, field by field -/
+theorem addCard_spec (lower : Bytes → Bytes) (tr : Track) (c : Card) :
+    ∃ c2 : Card, (tr.addCard lower c).1.cards = tr.cards ++ [c2] ∧ c2.id = tr.nextId ∧
+      c2.entity = c.entity ∧ c2.slot = c.slot ∧ c2.rel = c.rel ∧ c2.effTs = c.effTs ∧
+      (tr.addCard lower c).1.nextId = tr.nextId + 1 ∧
+      (tr.addCard lower c).1.index = indexInsert tr.index (slotKey lower c.entity c.slot) tr.nextId ∧
+      (tr.addCard lower c).2 = tr.nextId := by
+  unfold Track.addCard
+  cases hv : c.versionKey with
+  | none => exact ⟨_, rfl, rfl, rfl, rfl, rfl, rfl, rfl, rfl, rfl⟩
+  | some v => exact ⟨_, rfl, rfl, rfl, rfl, rfl, rfl, rfl, rfl, rfl⟩
+
+structure Wf (lower : Bytes → Bytes) (tr : Track) : Prop where
+  ids : tr.cards.map (·.id) = List.range tr.nextId
+  index : ∀ k, indexLookup tr.index k = if keyIds lower tr k = [] then none else some (keyIds lower tr k)
+  keys : ∀ p ∈ tr.index, ∃ e s, p.1 = slotKey lower e s
+
+theorem wf_empty (lower : Bytes → Bytes) : Wf lower Track.empty := by
+  refine ⟨rfl, ?_, ?_⟩
+  · intro k; simp [Track.empty, indexLookup, keyIds]
+  · intro p hp; simp [Track.empty] at hp
+
+theorem wf_add (lower : Bytes → Bytes) (tr : Track) (c : Card) (wf : Wf lower tr) :
+    Wf lower (tr.addCard lower c).1 := by
+  obtain ⟨c2, hcards, hid, hent, hslot, _, _, hnext, hindex, _⟩ := addCard_spec lower tr c
+  have hkey : c2.key lower = slotKey lower c.entity c.slot := by simp [Card.key, hent, hslot]
+  refine ⟨?_, ?_, ?_⟩
+  · rw [hcards, hnext, List.map_append, wf.ids, List.range_succ]; simp [hid]
+  · intro k
+    have hk : keyIds lower (tr.addCard lower c).1 k =
+        (if c2.key lower = k then [tr.nextId] else []) ++ keyIds lower tr k := by
+      unfold keyIds
+      rw [hcards, List.filter_append, List.map_append, List.reverse_append]
+      by_cases h : c2.key lower = k
+      · simp [h, hid]
+      · simp [h]
+    rw [hk, hindex, indexLookup_insert, wf.index]
+    by_cases h : k = slotKey lower c.entity c.slot
+    · have h' : c2.key lower = k := by rw [hkey, h]
+      subst h
+      simp only [if_true, h']
+      by_cases he : keyIds lower tr (slotKey lower c.entity c.slot) = []
+      · simp [he]
+      · simp [he]
+    · have h' : ¬ c2.key lower = k := by rw [hkey]; exact fun e => h e.symm
+      simp only [h, h', if_false, List.nil_append]
+      exact wf.index k
+  · intro p hp
+    rw [hindex] at hp
+    rcases mem_indexInsert_key _ _ _ p hp with h | ⟨q, hq, he⟩
+    · exact ⟨c.entity, c.slot, h⟩
+    · obtain ⟨e, s, hes⟩ := wf.keys q hq
+      exact ⟨e, s, by rw [← he, hes]⟩
+
+theorem wf_of_reachable {lower : Bytes → Bytes} {tr : Track} (h : Reachable lower tr) : Wf lower tr := by
+  induction h with
+  | empty => exact wf_empty lower
+  | add tr c _ ih => exact wf_add lower tr c ih
+
+/-! ### looking cards up by id -/
+
+theorem findCard_of_mem {cards : List Card} (hn : (cards.map (·.id)).Nodup) {c : Card} (hc : c ∈ cards) :
+    findCard cards c.id = some c := by
+  induction cards with
+  | nil => cases hc
+  | cons x xs ih =>
+    rw [List.map_cons, List.nodup_cons] at hn
+    unfold findCard
+    rw [List.find?_cons]
+    by_cases hx : x.id = c.id
+    · simp only [hx, decide_true]
+      rcases List.mem_cons.1 hc with rfl | hm
+      · rfl
+      · exfalso; apply hn.1; rw [hx]; exact List.mem_map.2 ⟨c, hm, rfl⟩
+    · simp only [hx, decide_false]
+      rcases List.mem_cons.1 hc with rfl | hm
+      · exact absurd rfl hx
+      · exact ih hn.2 hm
+
+theorem filterMap_findCard {cards : List Card} (hn : (cards.map (·.id)).Nodup) (l : List Card)
+    (hl : ∀ c ∈ l, c ∈ cards) : (l.map (·.id)).filterMap (findCard cards) = l := by
+  induction l with
+  | nil => rfl
+  | cons x xs ih =>
+    rw [List.map_cons, List.filterMap_cons, findCard_of_mem hn (hl x List.mem_cons_self)]
+    simp only
+    rw [ih (fun c hc => hl c (List.mem_cons_of_mem _ hc))]
+
+/-- **get_cards on a track built by add_card**: the cards filed under the query's lower-cased key,
+    newest first.  `hfix`: slot keys are fixed points of lower-casing (true of `str::to_lowercase`,
+    checked by the harness on every generated key), so the legacy fallback never fires. -/
+theorem getCards_spec {lower : Bytes → Bytes} {tr : Track} (h : Reachable lower tr)
+    (hfix : ∀ e s, lower (slotKey lower e s) = slotKey lower e s) (e s : Bytes) :
+    tr.getCards lower e s =
+      (tr.cards.filter (fun c => decide (c.key lower = slotKey lower e s))).reverse := by
+  have wf := wf_of_reachable h
+  have hn : (tr.cards.map (·.id)).Nodup := by rw [wf.ids]; exact List.nodup_range
+  have hix := wf.index (slotKey lower e s)
+  unfold Track.getCards indexGet
+  simp only
+  unfold indexLookup at hix
+  cases hf : tr.index.find? (fun p => decide (p.1 = slotKey lower e s)) with
+  | some p =>
+    rw [hf] at hix
+    simp only [Option.map_some] at hix
+    split at hix
+    · cases hix
+    · have hp : p.2 = keyIds lower tr (slotKey lower e s) := Option.some.inj hix
+      simp only [hp]
+      unfold keyIds
+      rw [← List.map_reverse]
+      apply filterMap_findCard hn
+      intro c hc
+      rw [List.mem_reverse] at hc
+      exact (List.mem_filter.1 hc).1
+  | none =>
+    rw [hf] at hix
+    simp only [Option.map_none] at hix
+    have hnone : tr.index.find? (fun p => decide (lower p.1 = slotKey lower e s)) = none := by
+      rw [List.find?_eq_none]
+      intro p hp
+      obtain ⟨e', s', hes⟩ := wf.keys p hp
+      have := (List.find?_eq_none.1 hf) p hp
+      simp only [decide_eq_true_eq] at this ⊢
+      rw [hes, hfix]; rw [hes] at this; exact this
+    simp only [hnone, Option.map_none]
+    split at hix
+    · rename_i hk
+      unfold keyIds at hk
+      have : tr.cards.filter (fun c => decide (c.key lower = slotKey lower e s)) = [] := by
+        have := congrArg List.length hk
+        simp at this
+        exact List.eq_nil_of_length_eq_zero (by simpa using this)
+      rw [this]; rfl
+    · cases hix
+
+/-- the slot list of a reachable track is strictly newest-first -/
+theorem getCards_ids_desc {lower : Bytes → Bytes} {tr : Track} (h : Reachable lower tr)
+    (hfix : ∀ e s, lower (slotKey lower e s) = slotKey lower e s) (e s : Bytes) :
+    (tr.getCards lower e s).Pairwise (fun a b => b.id < a.id) := by
+  rw [getCards_spec h hfix, List.pairwise_reverse]
+  apply List.Pairwise.filter
+  have wf := wf_of_reachable h
+  have : (tr.cards.map (·.id)).Pairwise (· < ·) := by rw [wf.ids]; exact List.pairwise_lt_range
+  exact List.pairwise_map.1 this
+
 end Mv.Cards
